@@ -209,6 +209,40 @@ func genKeys() (string, error) {
 		}
 		fmt.Fprintf(&b, "def src_%s : String := %q\n", fn, g.StmtsText(fd.Body.List))
 	}
+	// callers that may hold an ABSENT component: JoinLenPrefix drops a nil segment without a marker, so the
+	// builders are only injective on present components; the guards live in these two functions
+	for _, fn := range []struct{ name, lean string }{{"indexTxByRecipient", "src_store_indexTxByRecipient"}, {"DeleteTxsForHeight", "src_store_DeleteTxsForHeight"}} {
+		lines, err := normFunc("store/indexer.go", "Indexer", fn.name)
+		if err != nil {
+			return "", err
+		}
+		fmt.Fprintf(&b, "def %s : List String := [\n", fn.lean)
+		for i, l := range lines {
+			sep := ","
+			if i == len(lines)-1 {
+				sep = ""
+			}
+			fmt.Fprintf(&b, "  %q%s\n", l, sep)
+		}
+		b.WriteString("]\n")
+		if fn.name == "DeleteTxsForHeight" {
+			// the statements of DeleteTxsForHeight that touch the recipient, with their nesting (indentation)
+			var rl []string
+			for _, l := range lines {
+				if strings.Contains(l, "ecipient") {
+					rl = append(rl, l)
+				}
+			}
+			fmt.Fprintf(&b, "def src_store_DeleteTxsForHeight_recipient : List String := [")
+			for i, l := range rl {
+				if i > 0 {
+					b.WriteString(", ")
+				}
+				fmt.Fprintf(&b, "%q", l)
+			}
+			b.WriteString("]\n")
+		}
+	}
 	b.WriteString("end Canopy.Gen\n")
 	return b.String(), nil
 }
